@@ -200,6 +200,16 @@ impl<Tr: ?Sized + Trait, M: MemBuilder> Consumer<Tr, M> for InsertC {
     #[inline] fn take<V: AnyValue>(self, a: &mut AnyVec<Tr, M>, v: V) { a.insert(self.0, v) }
 }
 
+/// the unchecked entry points (no type test): `push_unchecked` / `insert_unchecked`
+pub struct PushUncheckedC;
+impl<Tr: ?Sized + Trait, M: MemBuilder> Consumer<Tr, M> for PushUncheckedC {
+    #[inline] fn take<V: AnyValue>(self, a: &mut AnyVec<Tr, M>, v: V) { unsafe { a.push_unchecked(v) } }
+}
+pub struct InsertUncheckedC(pub usize);
+impl<Tr: ?Sized + Trait, M: MemBuilder> Consumer<Tr, M> for InsertUncheckedC {
+    #[inline] fn take<V: AnyValue>(self, a: &mut AnyVec<Tr, M>, v: V) { unsafe { a.insert_unchecked(self.0, v) } }
+}
+
 /// consume the value as the single replacement item of `splice(i..i, [v])`
 pub struct SpliceC(pub usize);
 impl<Tr: ?Sized + Trait, M: MemBuilder> Consumer<Tr, M> for SpliceC {
